@@ -151,7 +151,7 @@ def mutate(enc, edits, other_enc, syn):
         elif kind == "xmlnum" and syn == "xer" and n:
             # replace the text of one element by another lexical form the XER decoders know (or nearly know):
             # the xx:xx:xx octet form of INTEGER, signs, leading zeros, white space, exponents, entity references
-            spots = [m for m in re.finditer(rb">([^<>]{1,40})<", bytes(b))]
+            spots = [m for m in re.finditer(rb">([^<>\s][^<>]{0,39})<", bytes(b))]      # element text, not indentation
             if spots:
                 m = spots[a % len(spots)]
                 forms = [b"01:02:03", b"0A", b"00:" * (1 + c % 40) + b"7F", b"FF:" * (8 + c % 30) + b"FF", b"+5", b"-0", b" 7 ",
